@@ -33,7 +33,7 @@ let run fence fill =
               | INull, _ -> diverge "model returns null" line
               | IThrow, _ -> diverge "model throws out_of_fixed_memory" line
               | _ -> diverge "unexpected model outcome" line))
-        | "n" :: "=" :: [cur] ->
+        | "n" :: "=" :: cur :: _ ->
           (match !st with
            | None -> ()
            | Some s ->
